@@ -101,6 +101,13 @@ def roundtrip(sess, suite, typ, args, want, pkgval=None):
     return b
 
 
+# strings that differ from the ciphersuite ID but have the same CRC-32 (the binary form's short id): the self-describing
+# form must compare the ID itself, not a digest of it  (found by a meet-in-the-middle search, checked below with zlib)
+CRC_TWINS = {"ed25519": "FROST-ED25519-SHA512-v1-8oNvCn", "ed448": "FROST-ED448-SHAKE256-v1-mAeaE0", "p256": "FROST-P256-SHA256-v1-MaXaqJ",
+             "ristretto255": "FROST-RISTRETTO255-SHA512-v1-bzIdVQ", "secp256k1": "FROST-secp256k1-SHA256-v1-h6nbG9",
+             "secp256k1-tr": "FROST-secp256k1-SHA256-TR-v1-IMYieC"}
+
+
 def json_faults(sess, suite, t, text):
     """wrong version, another ciphersuite's ID, unknown / missing field in the self-describing form"""
     try:
@@ -114,6 +121,14 @@ def json_faults(sess, suite, t, text):
     o = json.loads(text); o["header"]["version"] = 255; muts.append(("version 255", o))
     o = json.loads(text); o["header"]["ciphersuite"] = o["header"]["ciphersuite"] + "x"; muts.append(("ciphersuite id", o))
     o = json.loads(text); o["header"]["ciphersuite"] = "FROST-ED25519-SHA512-v1" if "ED25519" not in o["header"]["ciphersuite"] else "FROST-P256-SHA256-v1"; muts.append(("another ciphersuite", o))
+    twin = CRC_TWINS.get(suite)
+    if twin:
+        import zlib
+        o = json.loads(text)
+        if zlib.crc32(twin.encode()) == zlib.crc32(o["header"]["ciphersuite"].encode()) and twin != o["header"]["ciphersuite"]:
+            o["header"]["ciphersuite"] = twin; muts.append(("a ciphersuite string with the same CRC-32 as the real ID", o))
+    o = json.loads(text); o["header"]["ciphersuite"] = o["header"]["ciphersuite"].lower(); muts.append(("ciphersuite id in lower case", o))
+    o = json.loads(text); o["header"]["ciphersuite"] = o["header"]["ciphersuite"][:-1]; muts.append(("truncated ciphersuite id", o))
     o = json.loads(text); o["extra_field"] = 1; muts.append(("unknown field", o))
     o = json.loads(text); del o["header"]; muts.append(("missing header", o))
     for name, o in muts:
